@@ -220,6 +220,14 @@ class M(Hooks):
         elif k == 'deal_hole':
             if st_.card_burning_status and not inst.burns:
                 self.v('deal_before_burn', 'hole', repr(op))
+            if inst.fallback:
+                # decided on the counts before the street: the live players'
+                # cards exceed deck + known reserve, so the street is dealt
+                # as shared board cards and nobody receives a hole card
+                self.v('hole_dealt_despite_fallback', '',
+                       f'{op!r} on street {inst.si}: {sum(inst.live)} live'
+                       f' players x {len(st_.hole_dealing_statuses)} card(s)'
+                       ' exceed the cards that were available')
             inst.hole[op.player_index].extend(op.statuses)
             inst.order.extend([op.player_index] * len(op.cards))
             if len(op.cards) != len(op.statuses):
@@ -274,6 +282,17 @@ def budget(tier):
     return dict(examples=120000, wall=1500)
 
 
+def _manual_showdown(case):
+    # unknown hole cards cannot be tabled by the automation (outside the
+    # stated domain): the players table explicit cards themselves
+    case['config']['autos'] &= ~(1 << 7)
+    if case['config']['deck_seed'] % 4:
+        # the recorder deals and burns by hand (placeholders only get into
+        # the piles that way)
+        case['config']['autos'] &= ~((1 << 3) | (1 << 4))
+    return case
+
+
 def strategy(tier):
     common = dict(unknown=False, tape_size=110, rake=False, divmods=False,
                   chips=('int',))
@@ -285,6 +304,11 @@ def strategy(tier):
                                              'N2L1D', 'F7S8'), **common),
         gen.cases(profiles=(2, 5), short_bias=True, modes=('C',),
                   games=('NT', 'PO', 'NS', 'FT', 'FO8', 'NR'), **common),
+        # full stud tables with unknown down cards and unknown burns: the
+        # placeholders lie in the reserve piles when the deck runs short
+        gen.cases(profiles=(5, 6, 5, 0), min_players=8,
+                  games=('F7S', 'F7S8', 'FR'), custom=False,
+                  **dict(common, unknown='heavy')).map(_manual_showdown),
     )
 
 
@@ -294,7 +318,9 @@ def check(case, stats):
     res = run_case(case, hooks=m, observers=(m.observe,))
     stats.count('outcome:' + str(res.outcome))
     if res.outcome == 'discard':
-        return []
+        # the deck ran out later on; what the model saw before that stands
+        # when it does not depend on the rest of the hand
+        return [v for v in m.viol if v.kind == 'hole_dealt_despite_fallback']
     out = list(m.viol)
     if res.outcome in ('crash', 'hang', 'runaway') and not out:
         out.append(V(ID, 'engine_crash', exc_key(res.exc),
